@@ -496,9 +496,15 @@ static int _GD_Change(DIRFILE *D, const char *field_code, const gd_entry_t *N,
               GD_FINIRAW_CLOTEMP | GD_FINIRAW_DISCARD);
         else {
           /* discard the old file and move the temporary file into place */
-          if (_GD_FiniRawIO(D, E, E->fragment_index, GD_FINIRAW_DISCARD) == 0)
+          if (_GD_FiniRawIO(D, E, E->fragment_index, GD_FINIRAW_DISCARD) ||
+              _GD_FiniRawIO(D, E, E->fragment_index,
+                GD_FINIRAW_KEEP | GD_FINIRAW_CLOTEMP))
+          {
+            /* closing failed: remove the temporary file (nothing is left to
+             * do if it has already been moved or removed) */
             _GD_FiniRawIO(D, E, E->fragment_index,
-                GD_FINIRAW_KEEP | GD_FINIRAW_CLOTEMP);
+                GD_FINIRAW_CLOTEMP | GD_FINIRAW_DISCARD);
+          }
         }
       }
       memcpy(Qe.u.raw.file, E->e->u.raw.file, sizeof(struct gd_raw_file_));
